@@ -300,7 +300,7 @@ Definition stripped (l : bytes) : bool :=
 
 (* a header (name, value) the builders can emit and the parser reads back unchanged *)
 Definition ok_name (k : bytes) : bool :=
-  no_crlf k && forallb (fun x => negb (x =? COLON)) k && stripped k.
+  nonempty k && no_crlf k && forallb (fun x => negb (x =? COLON)) k && stripped k.
 Definition ok_value (v : bytes) : bool := no_crlf v && stripped v.
 Definition ok_header (kv : bytes * bytes) : bool := ok_name (fst kv) && ok_value (snd kv).
 
@@ -323,7 +323,7 @@ Definition len_ok (b : bytes) : bool := (length (dec_of_N (len b)) <=? int_limit
 (* a caller-supplied Content-Length value announces the body argument *)
 Definition cl_announces (cl : bytes) (body : option bytes) : bool :=
   match int10 cl with
-  | Ok z => if truthy body then (z =? Z.of_N (len (or_empty body)))%Z else (z <=? 0)%Z
+  | Ok z => if truthy body then (z =? Z.of_N (len (or_empty body)))%Z else (z =? 0)%Z
   | Err _ => false
   end.
 
@@ -362,6 +362,32 @@ Definition wf_resp_args (a : resp_args) : bool :=
   no_crlf (or_empty (sa_reason a)) &&
   forallb ok_header (arg_headers (sa_headers a)) && nodup_ci (map fst (arg_headers (sa_headers a))) &&
   args_framing_ok (arg_headers (sa_headers a)) (sa_body a) (negb (sa_nocl a)).
+
+(* ---- what the builders promise to put on the wire, stated independently of the dict model ---- *)
+(* set header [name] to v: header names are case-insensitive, an existing spelling keeps its place *)
+Fixpoint put_ci (name v : bytes) (h : bdict) : bdict :=
+  match h with
+  | [] => [(name, v)]
+  | (k, v') :: t => if bytes_eqb (lower k) (lower name) then (k, v) :: t else (k, v') :: put_ci name v t
+  end.
+
+Definition expected_request_headers (ua : bytes) (a : req_args) : bdict :=
+  let h := arg_headers (ra_headers a) in
+  let h := match ra_ctype a with Some ct => put_ci H_CONTENT_TYPE ct h | None => h end in
+  let te := has_key_ci TRANSFER_ENCODING h in
+  let has_ua := has_key_ci L_USER_AGENT h in
+  let h := if truthy (ra_body a) && negb te
+           then put_ci H_CONTENT_LENGTH (dec_of_N (len (or_empty (ra_body a)))) h else h in
+  let h := if negb has_ua && negb (ra_noua a) then h ++ [(H_USER_AGENT, ua)] else h in
+  if ra_close a then put_ci H_CONNECTION V_CLOSE h else h.
+
+Definition expected_response_headers (a : resp_args) : bdict :=
+  let h := arg_headers (sa_headers a) in
+  let h := if negb (has_key_ci TRANSFER_ENCODING h) && negb (sa_nocl a)
+           then put_ci H_CONTENT_LENGTH
+                  (if truthy (sa_body a) then dec_of_N (len (or_empty (sa_body a))) else [48]) h
+           else h in
+  if sa_close a then put_ci H_CONNECTION V_CLOSE h else h.
 
 (* what the parser must report: the header map of a parsed message *)
 Definition lift_headers (h : bdict) : option hdict :=
